@@ -240,6 +240,21 @@ func (g *Gen) addObl(kind, label string, st *State, goal string, pos token.Pos) 
 		if j := strings.Index(o.Name[i:], "}"); j > 0 {
 			o.Props = strings.Split(o.Name[i+1:i+j], ",")
 			o.Name = o.Name[:i] + o.Name[i+j+1:]
+			if kind == "pre" && !strings.HasPrefix(label, "at-site:") && g.ct != nil {
+				// a precondition is assumed by the callee's proof under every property: if none of the properties the
+				// clause was written for is one this caller is verified under, the obligation would be counted nowhere --
+				// it then counts under every property of the caller.  (Site contracts are assertions of the caller itself,
+				// nobody assumes them: their tags stay a filter.)
+				served := false
+				for _, p := range o.Props {
+					if hasProp(g.ct.Props, p) {
+						served = true
+					}
+				}
+				if !served {
+					o.Props = nil
+				}
+			}
 		}
 	}
 	g.obls = append(g.obls, o)
@@ -1573,6 +1588,68 @@ func (g *Gen) localPathOf(v ssa.Value) *localPath {
 // ---------------------------------------------------------------------------
 // invariants
 
+// countingLoop recognises `for i := 0; i < n; i++` (every back edge carries i+1, the header tests i < n with n a value
+// computed before the loop or the length of a slice computed before the loop).  Returns the counter and the term of n ("" if
+// the bound has no term at the loop head).
+func (g *Gen) countingLoop(li *loopInfo) (*ssa.Phi, string) {
+	h := li.header
+	if len(h.Instrs) == 0 {
+		return nil, ""
+	}
+	iff, ok := h.Instrs[len(h.Instrs)-1].(*ssa.If)
+	if !ok {
+		return nil, ""
+	}
+	cmp, ok := iff.Cond.(*ssa.BinOp)
+	if !ok || cmp.Op != token.LSS {
+		return nil, ""
+	}
+	phi, ok := cmp.X.(*ssa.Phi)
+	if !ok || phi.Block() != h || phi.Comment == "rangeindex" || phi.Comment == "" {
+		return nil, ""
+	}
+	if b, ok := phi.Type().Underlying().(*types.Basic); !ok || b.Info()&types.IsInteger == 0 {
+		return nil, ""
+	}
+	for j, p := range h.Preds {
+		e := phi.Edges[j]
+		if h.Dominates(p) && li.blocks[p] { // back edge: i + 1
+			add, ok := e.(*ssa.BinOp)
+			if !ok || add.Op != token.ADD || add.X != phi {
+				return nil, ""
+			}
+			if c, ok := add.Y.(*ssa.Const); !ok || c.Value == nil || c.Value.String() != "1" {
+				return nil, ""
+			}
+		} else { // entry: 0
+			if c, ok := e.(*ssa.Const); !ok || c.Value == nil || c.Value.String() != "0" {
+				return nil, ""
+			}
+		}
+	}
+	outside := func(v ssa.Value) bool {
+		ins, isIns := v.(ssa.Instruction)
+		return !isIns || (!li.blocks[ins.Block()] && ins.Block().Dominates(h))
+	}
+	if outside(cmp.Y) {
+		if _, isConst := cmp.Y.(*ssa.Const); isConst || g.val[cmp.Y] != "" {
+			return phi, g.term(cmp.Y)
+		}
+		return phi, ""
+	}
+	if call, ok := cmp.Y.(*ssa.Call); ok && call.Block() == h {
+		if b, ok := call.Call.Value.(*ssa.Builtin); ok && b.Name() == "len" && outside(call.Call.Args[0]) {
+			a := call.Call.Args[0]
+			if _, isSlice := a.Type().Underlying().(*types.Slice); isSlice {
+				if _, isConst := a.(*ssa.Const); isConst || g.val[a] != "" {
+					return phi, fmt.Sprintf("(slen %s)", g.term(a))
+				}
+			}
+		}
+	}
+	return phi, ""
+}
+
 func (g *Gen) loopContract(li *loopInfo) *LoopContract {
 	if g.ct == nil {
 		return nil
@@ -1602,6 +1679,19 @@ func (g *Gen) invariantTerms(li *loopInfo, st *State, phiVals map[*ssa.Phi]strin
 					}
 				}
 			}
+		}
+	}
+	// the same facts for the classic counting loop `for i := 0; i < n; i++` (offered as invariants and checked like any other)
+	if phi, bound := g.countingLoop(li); phi != nil {
+		pv := phiVals[phi]
+		if pv == "" {
+			pv = g.val[phi]
+		}
+		terms = append(terms, fmt.Sprintf("(>= %s 0)", pv))
+		clauses = append(clauses, &Clause{Kind: "invariant", Label: "auto-rangeindex", Text: phi.Comment + " >= 0"})
+		if bound != "" {
+			terms = append(terms, fmt.Sprintf("(<= %s %s)", pv, bound))
+			clauses = append(clauses, &Clause{Kind: "invariant", Label: "auto-rangeindex-upper", Text: phi.Comment + " <= n"})
 		}
 	}
 	if lc := g.loopContract(li); lc != nil && lc.PreservesOld {
